@@ -300,8 +300,13 @@ func (b *windowTimeBuffer) purge(oldest time.Time, inclusive bool) {
 		return t.After(oldest)
 	}
 	l := len(b.window)
-	if l == 0 {
+	if l == 0 || b.size == 0 {
 		return
+	}
+	if b.start == l {
+		// The start index ran off the end while the buffer was drained,
+		// the oldest point is at the front of the ring.
+		b.start = 0
 	}
 	if b.start < b.stop {
 		for ; b.start < b.stop; b.start++ {
